@@ -25,7 +25,8 @@ static const char *const extra[M_COUNT][3] = {
   [M_BIG] = { "abhfCpXqd4GrIatlJWV.Y872", "zz............", 0 },
   [M_DES] = { "abhfCpXqd4GrI", "zz", 0 },
 };
-static const char *const phrases[] = { "", "pw", "nine-char", "a-phrase-of-more-than-sixteen-bytes", 0 };
+static const char *const phrases[] = { "", "pw", "nine-char", "a-phrase-of-more-than-sixteen-bytes",
+  "\xff\xff\xa3" /* 8-bit: the input class the $2a$/$2x$ rules and the DES key loaders treat specially */, "\xd0\xc1\xd2\xcf\xcc\xd8\x80z", 0 };
 
 int
 main (int argc, char **argv)
